@@ -10,3 +10,15 @@ class GeneratorInit:
 
     def raises(self, str_types_registry, dict_keys_regex, dict_keys_fields):
         return {"*": True}
+
+IRMOD = ["_type", "_types", "_hash", "_sorted"]
+
+
+@contract(MG + ".generate", props=["C01", "C02", "C07", "C08", "C13"], verify=False)
+class Generate:
+    """bounded only for now (IR-level clauses are carried by _detect_type / merge_field_sets / optimize_type)"""
+    sorts = {"data_variants": "tuple", "result": "dict"}
+    modifies = ["_type", "_types", "_hash", "_sorted"]
+
+    def raises(self, data_variants):
+        return {"*": True}
